@@ -721,7 +721,7 @@ func init() {
 		Assumptions: []string{
 			"the go/types (source importer) view of the installed go1.23 standard library for the host platform is the reference; extract uses the same platform",
 			"extraction is run with GO111MODULE=off (the only mode extract.go documents) and a private GOPATH",
-			"restricted symbols (os.Exit, os.FindProcess, log.Fatal*, log.Logger, log.New) are bound to the documented local replacements; the stub declares them",
+			"restricted symbols (os.Exit, os.FindProcess, log.Fatal*, log.Logger, log.New, log.Default) are bound to the documented local replacements; the stub declares them",
 			"the +build header of the wrapper is only parsed, not evaluated; parameter/result names of wrapper methods are not compared (type identity ignores them)",
 			"package unsafe's builtin functions are not values and are not expected to be bound",
 		},
